@@ -622,6 +622,14 @@ type inflight struct {
 	checked bool   // its verification step (PfCheck) has run and let it pass: a Commit is outstanding
 	aborted bool   // its verification step has refused: only the Abort is outstanding
 	pendID  int
+	// an on-demand read (file.ReadAt of a range inside one chunk) stopped inside cacheData
+	isRead   bool
+	rOff     int64
+	rLen     int64
+	rN       int
+	rData    []byte
+	verified bool            // the layer was verified when the read started
+	before   map[string]bool // cache keys before the read (unverified reads only)
 }
 
 // switchRA is what the registry serves for the layer blob right now (blob Refresh / mirror change): one of two byte strings.
@@ -991,10 +999,52 @@ func (w *world) resume(n int, emit func(string, Out)) {
 		}
 	}
 	w.pend = append(w.pend[:idx], w.pend[idx+1:]...)
-	if err != nil {
+	if err != nil && !fl.isRead {
 		w.problems = append(w.problems, problem{"", "Commit of a prefetched chunk failed"})
 	}
 	emit(fmt.Sprintf("HAtom (Commit %d%%nat)", idx), Out{Kind: "o", Res: "none"})
+	if fl.isRead {
+		w.stats["op.rdresume"]++
+		if !fl.verified {
+			w.noteSkipCached(fl.before)
+		}
+		if err != nil {
+			w.stats["result.rdresume.err"]++
+			if fl.verified {
+				w.problems = append(w.problems, problem{"", "an on-demand read whose chunk had passed verification failed afterwards"})
+			}
+			return
+		}
+		w.checkReadBytes(fl.f, fl.rOff, fl.rLen, fl.rData[:fl.rN], fl.verified, "concurrent ")
+	}
+}
+
+// checkReadBytes: clause "a successful read of a layer verified against the trusted digest returns the original bytes".
+func (w *world) checkReadBytes(f int, off, ln int64, got []byte, verifiedMode bool, what string) {
+	if !verifiedMode || w.verifiedWith != w.dOrig.String() {
+		return
+	}
+	data := w.c.Files[f].Data
+	lo := min(off, int64(len(data)))
+	hi := min(off+ln, int64(len(data)))
+	if bytes.Equal(got, data[lo:hi]) {
+		return
+	}
+	residue := w.skipRead && len(got) == int(hi-lo)
+	for i, ci := range w.tabs[f] {
+		if ci.Off+ci.Size <= lo || ci.Off >= hi {
+			continue
+		}
+		if b, ok := w.cachedBytes(f, i); ok && !chunkGood(ci, b) && !w.skipCached[w.cacheKey(f, i)] {
+			residue = false
+		}
+	}
+	if residue {
+		w.problems = append(w.problems, problem{"C01-skip-read-residue", fmt.Sprintf("%sread of file %d [%d,+%d) in a layer verified against the trusted TOC digest returned altered bytes left in the cache by an earlier unverified read", what, f, off, ln)})
+	} else {
+		w.problems = append(w.problems, problem{"", fmt.Sprintf("%sread of file %d [%d,+%d) in a layer verified against the trusted TOC digest returned bytes that differ from the original content", what, f, off, ln)})
+	}
+	w.sawBadServed = true
 }
 
 // prefetchOne does what cacheWithReader does for one chunk, through the real readAndCache.
@@ -1677,6 +1727,94 @@ func run(c Case) (res result) {
 					emit(pfc, Out{Kind: "o", Res: "err"})
 				}
 			}
+		case "rdstart":
+			// an on-demand read of a range inside ONE chunk, in its own goroutine, stopped inside cacheData (before cache.Add,
+			// at the first Write or before Commit: all after verifyOneChunk); other readers then run while it is parked
+			if w.rd == nil || !validChunk(o.F, o.I) || o.F >= len(c.Files) || c.MinChunk != 0 || len(w.flights) >= 2 {
+				continue
+			}
+			busy := false
+			for _, fl := range w.flights {
+				if fl.f == o.F && fl.i == o.I {
+					busy = true
+				}
+			}
+			if busy {
+				continue
+			}
+			ci := w.tabs[o.F][o.I]
+			lo, ln := ci.Off, ci.Size // aligned: the whole chunk
+			if o.Len > 0 && ci.Size > 1 {
+				lo = ci.Off + 1 + o.Off%(ci.Size-1)
+				ln = max(1, min(o.Len, ci.Off+ci.Size-lo))
+			}
+			at := "add"
+			if o.D == "write" || o.D == "commit" {
+				at = o.D
+			}
+			key := w.cacheKey(o.F, o.I)
+			gt := w.gc.arm(key, at)
+			fl := &inflight{f: o.F, i: o.I, gt: gt, done: make(chan error, 1), isRead: true, rOff: lo, rLen: ln,
+				verified: w.verifiedWith != "", before: w.cachedKeys()}
+			w.rec.take()
+			rd := w.rd
+			go func() {
+				p := make([]byte, fl.rLen)
+				ra, err := rd.OpenFile(w.files[fl.f])
+				if err == nil {
+					fl.rN, err = ra.ReadAt(p, fl.rOff)
+				}
+				fl.rData = p
+				fl.done <- err
+			}()
+			shape := "aligned"
+			if lo != ci.Off || ln != ci.Size {
+				shape = "unaligned"
+			}
+			select {
+			case err := <-fl.done:
+				// finished without reaching the stop point: served from the cache, chunk read error or verification refused
+				w.gc.disarm(key)
+				fs := w.rec.take()
+				fts := make([]string, len(fs))
+				for j, fr := range fs {
+					fts[j] = w.coqFetch(fr)
+				}
+				out := Out{Kind: "r", Res: "err"}
+				if err == nil {
+					out = Out{Kind: "r", Res: "ok", Data: append([]byte{}, fl.rData[:fl.rN]...)}
+					w.checkReadBytes(o.F, lo, ln, out.Data, fl.verified, "")
+				} else {
+					w.sawErr = true
+				}
+				if !fl.verified {
+					w.skipRead = true
+					w.noteSkipCached(fl.before)
+				}
+				w.stats["op.rdstart.notparked"]++
+				emit(fmt.Sprintf("HRead %d%%N %s %s %s", w.files[o.F], hx.CoqZ(lo), hx.CoqZ(ln), hx.CoqList(fts)), out)
+			case <-gt.reached:
+				fs := w.rec.take()
+				if len(fs) != 1 {
+					w.stats["rdstart.oddfetch"]++
+				}
+				if len(fs) > 0 {
+					fl.data = fs[0].IP
+					w.note(fl.data)
+				}
+				if !fl.verified {
+					w.skipRead = true
+				} else {
+					w.sawVerifiedRd = true
+				}
+				fl.checked = true
+				w.flights = append(w.flights, fl)
+				w.pend = append(w.pend, fl)
+				w.stats["op.rdstart."+at]++
+				w.stats["op.rdstart."+shape]++
+				emit(fmt.Sprintf("HAtom (OdCheck false %d%%N %d%%nat %s)", w.files[o.F], o.I, coqBytes(fl.data)), Out{Kind: "o", Res: "ok"})
+			}
+			w.scanCache("after starting a concurrent read")
 		case "pfresume":
 			if len(w.flights) == 0 {
 				continue
@@ -1861,7 +1999,7 @@ func gen(r *hx.Rng) Case {
 		if c.Direct {
 			passW = 6
 		}
-		switch r.Pick(3, 1, 3, 1, 4, 2, 8, 2, 3, 2, passW, 3, 2, 2) {
+		switch r.Pick(3, 1, 3, 1, 4, 2, 8, 2, 3, 3, passW, 3, 2, 2, 4) {
 		case 0:
 			c.Ops = append(c.Ops, Op{Op: "vtoc", D: dsel()})
 		case 1:
@@ -1896,6 +2034,16 @@ func gen(r *hx.Rng) Case {
 		case 13:
 			f, k := pickChunk()
 			c.Ops = append(c.Ops, Op{Op: "evict", F: f, I: k})
+		case 14:
+			f, k := pickChunk()
+			o := Op{Op: "rdstart", F: f, I: k, D: []string{"add", "write", "commit"}[r.Intn(3)]}
+			if r.Bool() {
+				o.Off, o.Len = int64(r.Intn(32)), int64(r.Range(1, 32))
+			}
+			c.Ops = append(c.Ops, o)
+			if r.Chance(2, 3) { // another reader while it is parked
+				c.Ops = append(c.Ops, readOp())
+			}
 		}
 	}
 	// after whatever failed: re-read everything through the warm cache, then look at the cache
@@ -2144,6 +2292,43 @@ func sourceCorpus() []Case {
 	return out
 }
 
+// readersCorpus: two on-demand readers on one layer. Reader 1 (aligned or unaligned, one chunk) is stopped inside
+// cacheData - before cache.Add, at the first Write, before Commit - reader 2 then reads another chunk of the same file
+// or another file (unaligned = through the pooled buffers, or aligned) to completion, reader 1 resumes; afterwards the
+// cache entry of reader 1's chunk is probed and everything is re-read through the cache.
+func readersCorpus() []Case {
+	a := []byte("abcdefghijklmnopqrst")
+	b := []byte("ABCDEFGHIJKL")
+	var out []Case
+	for _, at := range []string{"add", "write", "commit"} {
+		for _, unaligned1 := range []bool{true, false} {
+			for r2 := 0; r2 < 3; r2++ {
+				c := Case{Comp: "gzip", ChunkSize: 8, Files: []FileSpec{{"a", a}, {"b", b}}}
+				r1 := Op{Op: "rdstart", F: 0, I: 0, D: at}
+				if unaligned1 {
+					r1.Off, r1.Len = 0, 5
+				}
+				second := []Op{{Op: "read", F: 1, Off: 1, Len: 5}, {Op: "read", F: 0, Off: 9, Len: 4}, {Op: "read", F: 1, Off: 0, Len: 8}}[r2]
+				c.Ops = []Op{{Op: "vtoc", D: "orig"}, r1, second, {Op: "read", F: 0, Off: 17, Len: 2}, {Op: "pfresume"},
+					{Op: "probe", F: 0, I: 0}, {Op: "read", F: 0, Off: 0, Len: 20}, {Op: "read", F: 1, Off: 0, Len: 12}}
+				out = append(out, c)
+			}
+		}
+	}
+	// two parked readers, resumed in the other order; an unverified layer; an altered chunk (verification refuses: never parks)
+	out = append(out, Case{Comp: "gzip", ChunkSize: 8, Files: []FileSpec{{"a", a}, {"b", b}},
+		Ops: []Op{{Op: "vtoc", D: "orig"}, {Op: "rdstart", F: 0, I: 0, D: "add", Off: 2, Len: 3}, {Op: "rdstart", F: 1, I: 0, D: "commit", Off: 1, Len: 4},
+			{Op: "read", F: 0, Off: 9, Len: 3}, {Op: "pfresume", I: 1}, {Op: "pfresume"}, {Op: "probe", F: 0, I: 0}, {Op: "probe", F: 1, I: 0},
+			{Op: "read", F: 0, Off: 0, Len: 20}, {Op: "read", F: 1, Off: 0, Len: 12}}})
+	out = append(out, Case{Comp: "gzip", ChunkSize: 8, Files: []FileSpec{{"a", a}, {"b", b}},
+		Ops: []Op{{Op: "lskip"}, {Op: "rdstart", F: 0, I: 0, D: "add", Off: 2, Len: 3}, {Op: "read", F: 1, Off: 1, Len: 5}, {Op: "lverify", D: "orig"},
+			{Op: "pfresume"}, {Op: "probe", F: 0, I: 0}, {Op: "read", F: 0, Off: 0, Len: 20}}})
+	out = append(out, Case{Comp: "gzip", ChunkSize: 8, Files: []FileSpec{{"a", a}, {"b", b}}, Cors: []Cor{{Kind: "replace", F: 0, I: 0, Alt: 1}},
+		Ops: []Op{{Op: "vtoc", D: "orig"}, {Op: "rdstart", F: 0, I: 0, D: "add", Off: 2, Len: 3}, {Op: "read", F: 1, Off: 1, Len: 5}, {Op: "pfresume"},
+			{Op: "probe", F: 0, I: 0}, {Op: "read", F: 0, Off: 0, Len: 20}}})
+	return out
+}
+
 var (
 	theStore     metadata.Store
 	theStoreName string
@@ -2186,7 +2371,7 @@ func Main(store metadata.Store, name string) {
 		return
 	}
 	n := 0
-	for _, c := range append(append(append(corpus(), stopCorpus()...), orderCorpus()...), sourceCorpus()...) {
+	for _, c := range append(append(append(append(corpus(), stopCorpus()...), orderCorpus()...), sourceCorpus()...), readersCorpus()...) {
 		emit(c)
 		n++
 	}
